@@ -136,9 +136,12 @@ def run(prop, tier, seed):
         # ambient settings of the process: output encodings that cannot represent everything, locale, warnings as errors
         envs = [{"PYTHONIOENCODING": "ascii"}, {"PYTHONIOENCODING": "latin-1"}, {"PYTHONIOENCODING": "cp1252"}, {"LC_ALL": "C", "PYTHONUTF8": "0", "PYTHONCOERCECLOCALE": "0"},
                 {"PYTHONWARNINGS": "error"}, {"PYTHONDEVMODE": "1"}, {"COLUMNS": "20"}, {"TERM": "dumb"}, {"NO_COLOR": "1"}]
+        from common import PYFLAGS
         for k_, it in enumerate(items):
             if k_ % 4 == 2:
                 it["env"] = envs[(k_ // 4) % len(envs)]
+            elif k_ % 4 == 0:
+                it["pyflags"] = PYFLAGS[(k_ // 4) % len(PYFLAGS)]          # interpreter options of the calculator's own process
         ev = record_events(items, work, name="cli", script="cli.py")
         judge(c, prop, ev, work, "cli", module="TraceCli", cfg="TraceCli.cfg", extra_states=0,
               keyfn=lambda e, what: "C17|%s|flags=%s" % (what, ",".join(sorted(a for a in e["args"] if a.startswith("-") and len(a) <= 12 and a not in ("-v", "--vector")))))
